@@ -9,7 +9,7 @@
    decisions.  All theorems hold for every history, of any length. *)
 From Coq Require Import List ZArith QArith Bool Lia.
 From GZ Require Import Lib.RollingWindow Lib.RollingWindowSpec C01.Model C01.Spec C01.Proofs C01.ProofsConc C01.ProofsConc2.
-From GZ Require Import C01.WrapModel C01.WrapProofs C01.Multi C01.MultiProofs.
+From GZ Require Import C01.WrapModel C01.WrapProofs C01.Multi C01.MultiProofs C01.Gen C01.Check C01.CheckProofs.
 Import ListNotations.
 Open Scope Z_scope.
 
@@ -412,6 +412,35 @@ Theorem rest_is_allow_entry_point : forall cfg w r,
      else if rr_succ rr =? 1 then [(now + hq_dur r, v_success)] else [(now + hq_dur r, v_fail)]).
 Proof. exact rest_is_entry. Qed.
 Print Assumptions rest_is_allow_entry_point.
+
+(* J  The executable judgement of Check.v (prop_ok) against the model: the tests that decide
+   WHICH clause of the property applies to an observed call are exact on model-conformant
+   observations, and its admission-law test (the property's own 5 and 10 %) follows from the
+   model's rejection rule for today's constants. *)
+
+(* "rejected iff the request did not run (Allow: iff it returned non-nil)" is exactly the
+   model's verdict, for every entry point and outcome - also when the request's own value is
+   ErrServiceUnavailable or the fallback's *)
+Theorem judgement_rejected_exact : forall cfg w c,
+  k_ctx c <> CDone ->
+  let o := snd (step cfg w c) in
+  pc_rejected (k_entry c) (iobs_of o) = was_rejected o.
+Proof. exact pc_rejected_exact. Qed.
+Print Assumptions judgement_rejected_exact.
+
+Theorem judgement_over_limit_sound : forall r lp now u,
+  0 <= w_accepts r -> 0 <= w_total r ->
+  decide cfg_gen r lp now u = VReject -> over_limit r = true.
+Proof. exact over_limit_sound. Qed.
+Print Assumptions judgement_over_limit_sound.
+
+Theorem judgement_admitted_runs_exact : forall cfg w c,
+  let o := snd (step cfg w c) in
+  was_admitted o = true ->
+  result_eqb (o_res o) (result_of (k_entry c) (k_out c)) = true /\
+  (o_req o =? (if is_allow (k_entry c) then 0 else 1)) = true /\ (o_fb o =? 0) = true.
+Proof. exact pc_admit_runs_exact. Qed.
+Print Assumptions judgement_admitted_runs_exact.
 
 (* ---- non-vacuity: concrete histories meeting the hypotheses (today's constants) *)
 
